@@ -70,6 +70,8 @@ pub fn run(toks: &[&str]) -> String {
                             match d {
                                 'f' => items.push(show_pair(it.next())),
                                 'b' => items.push(show_pair(it.next_back())),
+                                '0'..='9' => items.push(show_pair(it.nth(d as usize - '0' as usize))),
+                                'A'..='J' => items.push(show_pair(it.nth_back(d as usize - 'A' as usize))),
                                 _ => {}
                             }
                         }
@@ -90,6 +92,14 @@ pub fn run(toks: &[&str]) -> String {
                                     None => "~".into(),
                                 }),
                                 't' => items.push(format!("B{}", show_opt(it.take_binary().as_deref()))),
+                                '0'..='9' => items.push(match it.nth(d as usize - '0' as usize) {
+                                    Some((k, v)) => format!("{}:{}", hex(k.as_bytes()), hex(v.as_bytes())),
+                                    None => "~".into(),
+                                }),
+                                'A'..='J' => items.push(match it.nth_back(d as usize - 'A' as usize) {
+                                    Some((k, v)) => format!("{}:{}", hex(k.as_bytes()), hex(v.as_bytes())),
+                                    None => "~".into(),
+                                }),
                                 _ => {}
                             }
                         }
@@ -111,7 +121,12 @@ pub fn run(toks: &[&str]) -> String {
                 for d in dirs.chars() {
                     let (lo, hi) = it.size_hint();
                     let sz = if hi == Some(lo) && it.len() == lo { lo.to_string() } else { format!("{}?{:?}", lo, hi) };
-                    let item = if d == 'f' { it.next() } else { it.next_back() };
+                    let item = match d {
+                        'f' => it.next(),
+                        '0'..='9' => it.nth(d as usize - '0' as usize),
+                        'A'..='J' => it.nth_back(d as usize - 'A' as usize),
+                        _ => it.next_back(),
+                    };
                     items.push(format!(
                         "{}:{}",
                         sz,
@@ -127,7 +142,12 @@ pub fn run(toks: &[&str]) -> String {
                 for d in dirs.chars() {
                     let (lo, hi) = it.size_hint();
                     let sz = if hi == Some(lo) && it.len() == lo { lo.to_string() } else { format!("{}?{:?}", lo, hi) };
-                    let item = if d == 'f' { it.next() } else { it.next_back() };
+                    let item = match d {
+                        'f' => it.next(),
+                        '0'..='9' => it.nth(d as usize - '0' as usize),
+                        'A'..='J' => it.nth_back(d as usize - 'A' as usize),
+                        _ => it.next_back(),
+                    };
                     items.push(format!(
                         "{}:{}",
                         sz,
